@@ -6,6 +6,15 @@ import os
 ROOT = os.path.dirname(os.path.dirname(os.path.abspath(__file__)))
 
 CHECKS = {
+    "C02": dict(
+        technique="Independent type-level X.691 transcription in Coq (Uper/X691Type.v over Per/X691.v) related to the proven writer reference (theorems in Props/C02.v) + differential correspondence of writer bits and of the reader on reference bits",
+        text="x691 : ty -> val -> option bits is written clause by clause from X.691 (12-14, 16, 17, 19, 20, 23, 30, 11.2, 11.9) independently of the writer model; "
+             "Props/C02.v relates it to the implementation-shaped reference enc (which Props/C01.v proves equal to the writer and inverted by the reader) outside the "
+             "listed deviation classes; the crate's bits are compared with x691 evaluated by the extracted driver, and the crate's reader is run on the reference bits "
+             "followed by trailing data, for random profile types on the constant grid.",
+        note="Relative to my transcription of X.691 (no independent PER codec offline); the derivation of descriptor constants from ASN.1 text (SET order, ENUMERATED/CHOICE "
+             "index order, constants) is the subject of C08/C16 and their findings; known findings F02-1..4.",
+        design="6 (C02), 4 (profile)"),
     "C03": dict(
         technique="Coq model of the SEQUENCE/SET presence machinery (theorems in Props/C03.v) + bounded-exhaustive differential correspondence with a reference preamble encoder",
         text="Gallina model of Scope/write_into_field/read_from_field, write_opt/default and the generated field walk with the theorems of "
@@ -162,7 +171,6 @@ CHECKS = {
 }
 
 NOT_YET = {
-    "C02": "check under construction in this round: X.691 type-level reference (Uper/Spec.v) and the compiler-constants tie are planned in DESIGN.md section 6 (C02); not claimed until its check exists",
 }
 
 
